@@ -80,8 +80,11 @@ package main
 // (or on an interrupt signal / an error).
 
 //@ func file
-//@   property C13
+//@   property C13 C08 C09
 //@   returns (f, err)
+//@   ghost truncated bool = false
+//@   at call Create: ghost truncated = true
+//@   ensures [an-output-file-is-created-empty] create && name != "stdin" && name != "stdout" && err == nil ==> truncated
 //@   assume [standard-streams-open-and-unread] os.Stdin != nil && os.Stdout != nil && live(os.Stdin) && rsrc(os.Stdin) == ref(os.Stdin) && consumed(os.Stdin) >= 0
 //@                                               && live(os.Stdout) && rsrc(os.Stdout) == ref(os.Stdout) && consumed(os.Stdout) >= 0
 //@   ensures [file-or-error] err == nil ==> f != nil && live(f) && rsrc(f) == ref(f) && consumed(f) >= 0
@@ -152,7 +155,7 @@ package main
 // Everything the command sets up afterwards (resolver, TLS, prometheus, the Attacker's options) is
 // over-approximated (pragma unknowncalls havoc): the guard must hold whatever that code does.
 //@ func attack
-//@   property C19 C02 C04 C14 C18
+//@   property C19 C02 C03 C04 C05 C14 C15 C18
 //@   pragma unknowncalls havoc
 //@   pragma obligations contract
 //@   pragma frame off
@@ -163,30 +166,39 @@ package main
 //@   ghost bodyRead bool = false
 //@   at call Attack: ghost attacked = true
 //@   at call ReadAll: ghost bodyRead = true
+//@   ghost libtr ref = 0
+//@   ghost libenc ref = 0
+//@   at call NewJSONTargeter: ghost libtr = ref(result)
+//@   at call NewHTTPTargeter: ghost libtr = ref(result)
+//@   at call NewStaticTargeter: ghost libtr = ref(result)
+//@   at call NewEncoder: ghost libenc = ref(result)
+//@   before call processAttack: assert [results-written-by-the-library-encoder-itself] ref(arg2) == libenc
 //@   forbid [only-the-signal-pump-stops-the-attack] call Stop
-//@   before call NewJSONTargeter: assert [default-body-and-headers-forwarded] (opts.bodyf != "" ==> bodyRead) && arg1 == body && arg2 == opts.headers.Header
-//@   before call NewHTTPTargeter: assert [default-body-and-headers-forwarded] (opts.bodyf != "" ==> bodyRead) && arg1 == body && arg2 == opts.headers.Header
-//@   before call Redirects: assert [flag-forwarded-unchanged] arg0 == opts.redirects
-//@   before call Timeout: assert [flag-forwarded-unchanged] arg0 == opts.timeout
-//@   before call Workers: assert [flag-forwarded-unchanged] arg0 == opts.workers
-//@   before call MaxWorkers: assert [flag-forwarded-unchanged] arg0 == opts.maxWorkers
-//@   before call KeepAlive: assert [flag-forwarded-unchanged] arg0 == opts.keepalive
-//@   before call Connections: assert [flag-forwarded-unchanged] arg0 == opts.connections
-//@   before call MaxConnections: assert [flag-forwarded-unchanged] arg0 == opts.maxConnections
-//@   before call HTTP2: assert [flag-forwarded-unchanged] arg0 == opts.http2
-//@   before call H2C: assert [flag-forwarded-unchanged] arg0 == opts.h2c
-//@   before call MaxBody: assert [flag-forwarded-unchanged] arg0 == opts.maxBody
-//@   before call UnixSocket: assert [flag-forwarded-unchanged] arg0 == opts.unixSocket
-//@   before call ChunkedBody: assert [flag-forwarded-unchanged] arg0 == opts.chunked
-//@   before call DNSCaching: assert [flag-forwarded-unchanged] arg0 == opts.dnsTTL
-//@   before call ConnectTo: assert [flag-forwarded-unchanged] arg0 == opts.connectTo
-//@   before call SessionTickets: assert [flag-forwarded-unchanged] arg0 == opts.sessionTickets
-//@   before call ProxyHeader: assert [flag-forwarded-unchanged] arg0 == opts.proxyHeaders.Header
-//@   before call Attack: assert [rate-duration-and-name-forwarded-unchanged] arg2 == boxof(opts.rate) && arg3 == opts.duration && arg4 == opts.name
+//@   before call NewJSONTargeter: assert [default-body-and-headers-forwarded] (opts.bodyf != "" ==> bodyRead) && arg1 == body && arg2 == old(opts.headers.Header)
+//@   before call NewHTTPTargeter: assert [default-body-and-headers-forwarded] (opts.bodyf != "" ==> bodyRead) && arg1 == body && arg2 == old(opts.headers.Header)
+//@   before call Redirects: assert [flag-forwarded-unchanged] arg0 == old(opts.redirects)
+//@   before call Timeout: assert [flag-forwarded-unchanged] arg0 == old(opts.timeout)
+//@   before call Workers: assert [flag-forwarded-unchanged] arg0 == old(opts.workers)
+//@   before call MaxWorkers: assert [flag-forwarded-unchanged] arg0 == old(opts.maxWorkers)
+//@   before call KeepAlive: assert [flag-forwarded-unchanged] arg0 == old(opts.keepalive)
+//@   before call Connections: assert [flag-forwarded-unchanged] arg0 == old(opts.connections)
+//@   before call MaxConnections: assert [flag-forwarded-unchanged] arg0 == old(opts.maxConnections)
+//@   before call HTTP2: assert [flag-forwarded-unchanged] arg0 == old(opts.http2)
+//@   before call H2C: assert [flag-forwarded-unchanged] arg0 == old(opts.h2c)
+//@   before call MaxBody: assert [flag-forwarded-unchanged] arg0 == old(opts.maxBody)
+//@   before call UnixSocket: assert [flag-forwarded-unchanged] arg0 == old(opts.unixSocket)
+//@   before call ChunkedBody: assert [flag-forwarded-unchanged] arg0 == old(opts.chunked)
+//@   before call DNSCaching: assert [flag-forwarded-unchanged] arg0 == old(opts.dnsTTL)
+//@   before call ConnectTo: assert [flag-forwarded-unchanged] arg0 == old(opts.connectTo)
+//@   before call SessionTickets: assert [flag-forwarded-unchanged] arg0 == old(opts.sessionTickets)
+//@   before call ProxyHeader: assert [flag-forwarded-unchanged] arg0 == old(opts.proxyHeaders.Header)
+//@   before call Attack: assert [rate-duration-and-name-forwarded-unchanged] arg2 == boxof(old(opts.rate)) && arg3 == old(opts.duration) && arg4 == old(opts.name) ;
+//@        assert [attack-draws-from-the-library-targeter-itself] ref(arg1) == libtr
 //@   ensures [unlimited-rate-demands-max-workers] old(opts.maxWorkers) == 18446744073709551615 && old(opts.rate.Freq) == 0 ==> err != nil && !attacked
 //@   loop 1
 //@     invariant -1 <= rangeindex && rangeindex < 2 && opts == old(opts) && !attacked && !bodyRead && files != nil
 //@     invariant rangeindex >= 1 && opts.bodyf != "" ==> has(files, opts.bodyf)
+//@     invariant [options-as-given] opts.redirects == old(opts.redirects) && opts.timeout == old(opts.timeout) && opts.workers == old(opts.workers) && opts.maxWorkers == old(opts.maxWorkers) && opts.keepalive == old(opts.keepalive) && opts.connections == old(opts.connections) && opts.maxConnections == old(opts.maxConnections) && opts.http2 == old(opts.http2) && opts.h2c == old(opts.h2c) && opts.maxBody == old(opts.maxBody) && opts.unixSocket == old(opts.unixSocket) && opts.chunked == old(opts.chunked) && opts.dnsTTL == old(opts.dnsTTL) && opts.connectTo == old(opts.connectTo) && opts.sessionTickets == old(opts.sessionTickets) && opts.proxyHeaders.Header == old(opts.proxyHeaders.Header) && opts.headers.Header == old(opts.headers.Header) && opts.rate.Freq == old(opts.rate.Freq) && opts.rate.Per == old(opts.rate.Per) && opts.duration == old(opts.duration) && opts.name == old(opts.name) && opts.bodyf == old(opts.bodyf) && opts.targetsf == old(opts.targetsf) && opts.lazy == old(opts.lazy) && opts.format == old(opts.format) && opts.outputf == old(opts.outputf)
 
 // processAttack: every result received from the attack is observed (if metrics are on) and written
 // exactly once, in the order received, until the channel is closed, a write fails or a second signal.
